@@ -11,7 +11,13 @@ every driver method so that overlap is observable.
 Oracle, evaluated at the entry of every driver method:
   * the frontend's lock is held by the calling thread
   * no other thread is inside any driver method
-  * the device object has not been closed
+  * the device object has not been closed (its close() was not called
+    before, whether that call returned or raised)
+
+Legs `failing` / `preempt-failing`: the driver FAILS inside the programs -
+close() raises IOError (swallowed by the frontend), other driver calls raise
+IOError - and the programs go on using the frontend from the same and from
+other threads.
 
 Schedules: generated choice lists, and (leg `preempt`) every position of one
 forced preemption for fixed two/three-thread programs.  As a coverage
@@ -20,6 +26,8 @@ measure the syntactic `self.device.<m>(...)` call sites of ContactlessFrontend
 verdict comes from the dynamic oracle only.
 """
 import ast
+import errno
+import os
 import sys
 
 from hypothesis import strategies as st
@@ -58,6 +66,15 @@ class World(object):
         self.overlap_window = False
         self.reader_visits = 1    # how often a reader activates the card
         self.reader_cmds = 0
+        # failing driver: the k-th driver close() raises IOError when
+        # close_fail[k % len] is true; the driver call with index n (counted
+        # over all methods but close) raises IOError when n is in fail_at
+        self.close_fail = []
+        self.fail_at = ()
+        self.nclose = 0
+        self.failed_closes = 0
+        self.failed_calls = 0
+        self.ops_after_failure = 0
 
 
 class ProxyDevice(nfc.clf.device.Device):
@@ -97,16 +114,34 @@ class ProxyDevice(nfc.clf.device.Device):
                    and t.wait_on is lock]
         if pending:
             w.overlap_window = True
+        n = w.ncalls - 1
         w.inside.append((me.name, name))
         try:
             s.sleep(0.0005)       # the driver call takes time: others run
         finally:
             w.inside.remove((me.name, name))
+        if name != "close" and n in w.fail_at:
+            # the host link broke during this call
+            w.failed_calls += 1
+            code = errno.ENODEV if n % 2 else errno.EIO
+            raise IOError(code, os.strerror(code))
 
     # ---- driver interface
     def close(self):
-        self._call("close")
-        self.closed = True
+        w = self.w
+        k = w.nclose
+        w.nclose += 1
+        try:
+            self._call("close")
+        finally:
+            # close() was called: whatever it reports, this device object
+            # must not be driven again
+            self.closed = True
+        if w.close_fail and w.close_fail[k % len(w.close_fail)]:
+            # e.g. the final RF-off / ACK write to an unplugged reader fails
+            # after the transport was released
+            w.failed_closes += 1
+            raise IOError(errno.EIO, os.strerror(errno.EIO))
 
     def mute(self):
         self._call("mute")
@@ -206,6 +241,8 @@ OPS = ["open", "close", "sense-a", "sense-af", "sense-f", "sense-b",
 
 def do_op(w, op):
     clf = w.clf
+    if w.failed_closes or w.failed_calls:
+        w.ops_after_failure += 1
     if op == "open":
         clf.open("usb")
     elif op == "close":
@@ -284,6 +321,8 @@ def run(case, ctx):
     w = World()
     w.tag_checks = case.get("tag_checks", 3)
     w.reader_visits = case.get("reader_visits", 1)
+    w.close_fail = [bool(x) for x in case.get("close_fail", [])]
+    w.fail_at = frozenset(int(x) for x in case.get("fail_at", []))
     other = []
     saved_connect = nfc.clf.device.connect
     try:
@@ -321,6 +360,14 @@ def run(case, ctx):
     if w.overlap_window:
         ctx.nontrivial()
         ctx.label("driver-call-while-another-thread-waits")
+    if w.failed_closes:
+        ctx.label("driver-close-raised")
+    if w.failed_calls:
+        ctx.label("driver-call-raised")
+    if w.ops_after_failure:
+        ctx.label("operation-after-driver-failure")
+        if case.get("close_fail") or case.get("fail_at"):
+            ctx.nontrivial()
     if w.violations:
         kind, func, name, who = w.violations[0]
         ctx.set_class("%s/%s" % (func, name))
@@ -347,6 +394,40 @@ def programs():
         "seed": st.integers(0, 255)})
 
 
+FAIL_OPS = OPS + ["close", "close", "exit", "exit", "open", "sense-a",
+                  "exchange", "max-send", "max-recv"]
+
+
+def programs_failing():
+    """programs over a driver whose calls fail: close() raising IOError (the
+    frontend swallows it) and other driver calls raising IOError"""
+    prog = st.lists(st.sampled_from(FAIL_OPS), min_size=1, max_size=5)
+    return st.fixed_dictionaries({
+        "programs": st.lists(prog, min_size=1, max_size=4),
+        "opened": st.sampled_from([True, True, True, False]),
+        "tag_checks": st.integers(0, 5),
+        "reader_visits": st.integers(0, 2),
+        "close_fail": st.sampled_from([[True], [True], [True, False],
+                                       [False, True], [True, True, False],
+                                       []]),
+        "fail_at": st.lists(st.one_of(st.integers(0, 8), st.integers(0, 60)),
+                            max_size=3),
+        "choices": st.lists(st.integers(0, 3), max_size=60),
+        "seed": st.integers(0, 255)})
+
+
+# (programs, close_fail, fail_at)
+FIXED_FAIL = [
+    ([["close"], ["sense-a", "exchange", "max-send"]], [True], []),
+    ([["sense-a", "exit", "max-recv", "listen-tta"]], [True], []),
+    ([["exit"], ["connect-rdwr"], ["max-send", "close"]], [True, False], []),
+    ([["close", "open", "sense-a"], ["exchange", "listen-ttf"]], [True], []),
+    ([["sense-af", "close"], ["connect-card"]], [True], [1, 4]),
+    ([["connect-rdwr-beep", "close"], ["sense-a", "max-recv"]], [False, True],
+     [3]),
+]
+
+
 FIXED = [
     [["connect-rdwr-beep"], ["exchange", "max-send", "sense-a"]],
     [["connect-rdwr-stay"], ["close"]],
@@ -362,11 +443,18 @@ class _Ctx(object):
         return lambda *a, **k: None
 
 
-def enum_preempt(tier, seed):
-    fixed = FIXED
-    for progs in fixed:
+def enum_preempt_failing(tier, seed):
+    return enum_preempt(tier, seed, FIXED_FAIL)
+
+
+def enum_preempt(tier, seed, fixed=None):
+    if fixed is None:
+        fixed = [(progs, [], []) for progs in FIXED]
+    for progs, close_fail, fail_at in fixed:
         base = {"programs": progs, "opened": True, "tag_checks": 2,
                 "choices": [], "seed": 0}
+        if close_fail or fail_at:
+            base.update(close_fail=close_fail, fail_at=fail_at)
         try:
             points, _ = run(dict(base), _Ctx())
         except Violation:
@@ -435,6 +523,27 @@ LEGS = [
              "(incl. connect with rdwr/llcp/card) x schedule choice list; "
              "non-trivial = some thread was waiting for the frontend lock "
              "while another was inside a driver call."),
+    Leg("failing", run=run, gen=lambda tier: programs_failing(), quick=2500,
+        thorough=50000, shards_quick=6, shards_thorough=16, nt_floor=0.3,
+        rule="1-4 threads x up to 5 operations (the 20 entry point uses, "
+             "close / __exit__ / open and the short operations weighted up) "
+             "over a driver that FAILS: the k-th driver close() raises "
+             "IOError by a generated pattern (the frontend swallows it), and "
+             "up to 3 other driver calls (by call index) raise IOError(EIO / "
+             "ENODEV); x schedule choice list. The driver object remembers "
+             "that its close() was called - whether it returned or raised - "
+             "and every later call on that object is a violation, next to the "
+             "lock and overlap clauses. Non-trivial = a frontend operation "
+             "was started after a driver call had failed, or a thread waited "
+             "for the lock while another was inside a driver call."),
+    Leg("preempt-failing", run=run, enum=enum_preempt_failing,
+        exhaustive=True, shards_quick=8, shards_thorough=16,
+        rule="%d fixed 1-3 thread programs in which close() / __exit__() "
+             "meet a driver close() that raises IOError (and, in two of "
+             "them, other failing driver calls) before operations of the "
+             "same or another thread x one forced preemption (two "
+             "alternative threads) at every scheduling point."
+             % len(FIXED_FAIL)),
     Leg("preempt", run=run, enum=enum_preempt, exhaustive=True,
         shards_quick=8, shards_thorough=16,
         rule="fixed 2-3 thread programs x one forced preemption (two "
